@@ -257,7 +257,9 @@ class DsaComputation(VariableComputation):
         if comp_def.algo.param_value("p_mode") == "arity":
             n_count = sum(len(c.dimensions) - 1 for c in self.constraints)
             n = len(comp_def.node.neighbors)
-            self.probability = 1 / n_count * 1.2
+            # A variable without any neighbor never uses its probability.
+            if n_count > 0:
+                self.probability = 1 / n_count * 1.2
             self.logger.debug(
                 f"Using arity-based threshold : {self.probability} {n_count} {n}"
             )
